@@ -160,55 +160,23 @@ def _split_top(t, sep):
 
 
 class BoolFn(object):
-    """A rendered condition (possibly several fused `if` clauses) as a boolean function of its relations: and / or / not /
-    all([..]) / any([..]) over atoms; == / != / is / is not atoms are one relation with a polarity (as in keyaction.atom_key)."""
+    """A rendered condition (possibly several fused `if` clauses) as a boolean function of its relations (skeleton built by
+    keyaction.skel_from_text; == / != / is / is not atoms are one relation with a polarity, as in keyaction.atom_key)."""
     def __init__(self, text):
+        self.skels = [keyaction.skel_from_text(p_) for p_ in _split_top(text, ' if ')]
         self.atoms = []
-        parts = _split_top(text, ' if ')
-        self.trees = []
-        for p_ in parts:
-            node = _parse(p_)
-            if node is None:
-                raise AnalysisError('condition %s is not an expression' % p_)
-            self.trees.append(self._build(node))
-
-    def _atom(self, key, pos):
-        if key not in self.atoms:
-            self.atoms.append(key)
-        return ('atom', key, pos)
-
-    def _build(self, n):
-        if isinstance(n, ast.BoolOp):
-            return ('and' if isinstance(n.op, ast.And) else 'or', [self._build(v) for v in n.values])
-        if isinstance(n, ast.UnaryOp) and isinstance(n.op, ast.Not):
-            return ('not', self._build(n.operand))
-        if isinstance(n, ast.Call) and dotted(n.func) in ('all', 'any') and len(n.args) == 1 and isinstance(n.args[0], (ast.List, ast.Tuple)):
-            return ('and' if dotted(n.func) == 'all' else 'or', [self._build(v) for v in n.args[0].elts])
-        if isinstance(n, ast.Call) and dotted(n.func) == 'bool' and len(n.args) == 1:
-            return self._build(n.args[0])
-        if isinstance(n, ast.Constant):
-            return ('const', bool(n.value))
-        if isinstance(n, ast.Compare) and len(n.ops) == 1 and isinstance(n.ops[0], (ast.Eq, ast.NotEq, ast.Is, ast.IsNot)):
-            sides = frozenset(self._un(x) for x in (n.left, n.comparators[0]))
-            return self._atom(('eq', sides), isinstance(n.ops[0], (ast.Eq, ast.Is)))
-        return self._atom(('expr', self._un(n)), True)
-
-    @staticmethod
-    def _un(n):
-        return re.sub(r'B_(\d+)_(\d*)', lambda m: '$%s%s' % (m.group(1), '.' + m.group(2) if m.group(2) else ''), ast.unparse(n))
+        for sk in self.skels:
+            for a in keyaction.skel_atoms(sk):
+                if a[0] != 'const' and atom_key(a)[0] not in self.atoms:
+                    self.atoms.append(atom_key(a)[0])
 
     def value(self, assign):
-        def ev(t):
-            if t[0] == 'const':
-                return t[1]
-            if t[0] == 'atom':
-                v = assign[t[1]]
-                return v if t[2] else not v
-            if t[0] == 'not':
-                return not ev(t[1])
-            vs = [ev(x) for x in t[1]]
-            return all(vs) if t[0] == 'and' else any(vs)
-        return all(ev(t) for t in self.trees)
+        def val(a):
+            if a[0] == 'const':
+                return a[1]
+            k, pos = atom_key(a)
+            return assign[k] if pos else not assign[k]
+        return all(keyaction.eval_skel(sk, val) for sk in self.skels)
 
     def assignments(self):
         import itertools
@@ -245,8 +213,11 @@ def check_recency(rep, prog):
     a, b = lt.params[0], lt.params[1]
     for s in Interp(prog, Scenario(inline=noinline)).run(lt):
         r = _strip(render(s.ret))
-        rep.check(r in ('%s.created < %s.created' % (a, b), '%s.created > %s.created' % (b, a), 'operator.lt(%s.created, %s.created)' % (a, b),
-                        'operator.gt(%s.created, %s.created)' % (b, a)), 'C16.5', 'PGPSignature.__lt__', 'orders by %s' % r,
+        good = ('%s.created < %s.created' % (a, b), '%s.created > %s.created' % (b, a), 'operator.lt(%s.created, %s.created)' % (a, b),
+                'operator.gt(%s.created, %s.created)' % (b, a))
+        if r not in good and not re.match(r'^(?:operator\.\w+\()?[\w.]+(?: [<>]=? |, )[\w.]+\)?$', r):
+            raise AnalysisError('PGPSignature.__lt__: ordering %s not understood' % r)
+        rep.check(r in good, 'C16.5', 'PGPSignature.__lt__', 'orders by %s' % r,
                   'signature collections are ordered by creation time (premise of the recency rule)', where=lt.where)
     ins = prog.method('pgpy.types', 'SorteDeque', 'insort')
     me, item = ins.params[0], ins.params[1]
@@ -412,6 +383,8 @@ def check_self_signatures(rep, prog):
         if cond is not None:
             # the filter as a boolean function: it may only pass signatures for which all three relations hold, and passes some
             fn = BoolFn(cond)
+            if not any(w in fn.atoms for w in want):
+                raise AnalysisError('PGPKey.self_signatures: filter %s not understood' % cond)
             ok, found, passes = True, None, False
             for a in fn.assignments():
                 if fn.value(a):
@@ -446,10 +419,12 @@ def check_key_form_predicates(rep, prog):
     """is_unlocked / is_protected are derived from the packet, so the precondition table means what it says."""
     iu = prog.method('pgpy.pgp', 'PGPKey', 'is_unlocked')
     me = iu.params[0]
-    cases = [({'%s.is_public' % me: Const(True)}, 'True'), ({'%s.is_public' % me: Const(False), '%s.is_protected' % me: Const(False)}, 'True'),
-             ({'%s.is_public' % me: Const(False), '%s.is_protected' % me: Const(True)}, '%s._key.unlocked' % me)]
+    # the packet-level facts are the scenario; is_protected is read through its own definition (so a getter that asks the packet
+    # directly and one that goes through the property are the same)
+    cases = [({'%s.is_public' % me: Const(True)}, 'True'), ({'%s.is_public' % me: Const(False), '%s._key.protected' % me: Const(False)}, 'True'),
+             ({'%s.is_public' % me: Const(False), '%s._key.protected' % me: Const(True)}, '%s._key.unlocked' % me)]
     for bind, want in cases:
-        for s in Interp(prog, Scenario(bind=bind, inline=noinline)).run(iu):
+        for s in Interp(prog, Scenario(bind=bind, inline=noinline, inline_props={'is_protected'})).run(iu):
             rep.check(render(s.ret) == want, 'C16.2', 'PGPKey.is_unlocked', '%s -> %s' % ({k: render(v) for k, v in bind.items()}, render(s.ret)),
                       'a protected private key counts as unlocked only when its packet says so', where=iu.where, expected=want, found=render(s.ret))
     ul = prog.method('pgpy.packet.packets', 'PrivKeyV4', 'unlocked')
@@ -537,7 +512,7 @@ def check_pkesk_selection(rep, prog):
         else:
             v, cond = m.group(1), m.group(2)
         fn = BoolFn(cond)
-        want = [('expr', 'isinstance(%s, PKESessionKey)' % v), ('eq', frozenset(('%s.pkalg' % v, '%s.key_algorithm' % me))),
+        want = [('call', 'isinstance', (v, 'PKESessionKey')), ('eq', frozenset(('%s.pkalg' % v, '%s.key_algorithm' % me))),
                 ('eq', frozenset(('%s.encrypter' % v, own)))]
         bad = None
         for a in fn.assignments():
@@ -652,6 +627,9 @@ def check_decrypt_delegation(rep, prog):
         encs = r'(?:set\()?%s\)?' % re.escape(enc)
         inter = any(re.search(p, idx) for sp in sets for p in (r'%s & %s' % (sp, encs), r'%s & %s' % (encs, sp),
                                                                   r'%s\.intersection\(%s\)' % (sp, encs), r'%s\.intersection\(%s\)' % (encs, sp)))
+        if idx in s.bound and any(re.search(p_, s.bound[idx]) for sp in sets for p_ in (r'%s & %s' % (sp, encs), r'%s & %s' % (encs, sp),
+                                                                                    r'%s\.intersection\(%s\)' % (sp, encs), r'%s\.intersection\(%s\)' % (encs, sp))):
+            inter = True               # for skid in <own subkey ids> & <recipients>: ...
         member = path_relations(s).get(('cmp', 'in', idx, enc)) is True and \
             (s.bound.get(idx) in subs + tuple(sb + '.keys()' for sb in subs) or (pair is not None and idx == pair.group(1) + '_0'))
         if not (inter or member) and enc in idx:
@@ -662,6 +640,7 @@ def check_decrypt_delegation(rep, prog):
     en = prog.method('pgpy.pgp', 'PGPMessage', 'encrypters')
     me = en.params[0]
     forms = ('set(EACH($1in%s._sessionkeysifisinstance($1,PKESessionKey);$1.encrypter))' % me,
+             'set().union(EACH($1in%s._sessionkeysifisinstance($1,PKESessionKey);$1.encrypter))' % me,
              '{$1.encrypterfor$1in%s._sessionkeysifisinstance($1,PKESessionKey)}' % me)
     outs = Interp(prog, Scenario(inline=noinline)).run(en)
     if all(alpha(render(s.ret)).replace(' ', '') in forms for s in outs):
